@@ -377,6 +377,7 @@ Proof.
   destruct (negb _); [discriminate|].
   destruct (redecl_ok P _ (f_body fd)) as [bound|]; [|discriminate].
   destruct (negb _); [discriminate|].
+  destruct (negb _); [discriminate|].
   destruct (check_stmt P true (f_ret fd) _ (f_body fd)) as [st'| |] eqn:Eb; simpl in Hc; try discriminate.
   pose proof (SO _ _ _ _ en Eb (conj Hd (frame_ok_nil en))) as R.
   unfold call_ok. destruct (exec P f en (f_body fd)) as [[en1|w]|x|]; simpl in *; try exact R.
